@@ -1928,7 +1928,8 @@ class BaseDocWriter(object):
         vfElement.attrib["name"] = vf.name
         if vf.filename is not None:
             vfElement.attrib["filename"] = vf.filename
-        if vf.axisSubsets:
+        # <axis-subsets> is mandatory for the reader, also when the list is empty
+        if vf.axisSubsets is not None:
             subsetsElement = ET.Element("axis-subsets")
             for subset in vf.axisSubsets:
                 subsetElement = ET.Element("axis-subset")
